@@ -115,6 +115,6 @@ def run_foreign(prop, tier, seed, projections, n, explanation, mix=None, extra_j
 
 
 def run(tier, seed, replay):
-    n = 80 if tier == 'quick' else 2000
+    n = 250 if tier == 'quick' else 2500
     return run_foreign('C10', tier, seed, ('read', 'api', 'reopen', 'valid', 'backing-written', 'open'), n,
                        'COW histories over backing-provided and compressed clusters: FlatDisk oracle now and after flush+reopen, validb on the flushed file, backing request logs read-only.')
